@@ -189,12 +189,14 @@ func (e *Engine) VerifyFunc(key string) (*Gen, core.FuncInfo) {
 					continue
 				}
 				st := &state{cur: r.cond, heap: r.st.heap}
+				g.horizon = r.hz
 				g.addObl(fr, st, "post", fmt.Sprintf("%s/ret%d", en.Label, ri+1), "postcondition "+en.Label+" at return "+fmt.Sprint(ri+1), r.pos, t)
 				var rs []string
 				for _, v := range r.vals {
 					rs = append(rs, v.S)
 				}
 				g.obls[len(g.obls)-1].rets = rs
+				g.horizon = 0
 			}
 		}
 	}
@@ -234,9 +236,9 @@ func (e *Engine) VerifyFunc(key string) (*Gen, core.FuncInfo) {
 		sort.Strings(bad)
 		p := &pending{name: key + "/frame/assigns", kind: "frame", detail: "heap components modified (inferred from every store/map update/call in the translated SSA) are within the assigns clause: " + strings.Join(allowed, " ")}
 		if len(bad) == 0 {
-			p.cond = "true"
+			p.decided = "ok"
 		} else {
-			p.cond = "false"
+			p.decided = "fail"
 			p.detail += "; modified outside the frame: " + strings.Join(bad, ", ")
 		}
 		g.obls = append(g.obls, p)
